@@ -365,8 +365,8 @@ def harnesses(tier: str) -> List[H]:
     for si, shape in enumerate(SHAPES):
         for n_inv in (1, 2):
             seqs = [1] if tier == "quick" else [2]
-            if n_inv == 1 and shape in ("plain", "dbc_sub_members"):
-                seqs.append(2 if tier == "quick" else 3)
+            if n_inv == 1 and shape in ("plain", "dbc_sub_members") and tier == "quick":
+                seqs.append(2)
             for n_ops in seqs:
                 split_on0 = [None] if n_ops == 1 else [0, 1, 2]
                 for fixed_on0 in split_on0:
